@@ -20,8 +20,11 @@ EXPECTED = {
     (ETREE, "debug_print"): ({"turn_off_flag", "turn_on_flag"}, "debug mask read only by debug()"),
     (ETREE, "named_variables"): (set(), "never written"),
     ("tools/frame_tools.py", "TOOLS"): (set(), "constant registry of the command-line tools, never written"),
+    (STROP, "EMPTY_INTERVAL"): (set(), "sentinel Interval(-1, -1): only returned and compared with; no code stores into the fields of any Interval"),
 }
 MUTABLE_CTORS = {"list", "dict", "set", "deque", "OrderedDict", "defaultdict"}
+MEMO_DECORATORS = {"lru_cache", "cache", "cached", "memoize", "memoized"}
+IMMUTABLE_CTORS = {"TypeVar", "NamedTuple", "Enum", "Path", "Fraction", "Decimal", "ParamSpec", "NewType", "Literal", "Final"}
 from framelint.canon import canon_function as _canon_function_expanded
 
 def canon_function(fi, model=None, opts=None):   # rules of this file match shapes: look through every local
@@ -39,12 +42,14 @@ def discover_state(ctx: Ctx) -> dict:
     m = ctx.model
     found: dict = {}
     mutable_globals: dict = {}
+    mutable_container_keys: set = set()
     for mi in m.modules.values():
         for name, sts in mi.global_assigns.items():
             for st in sts:
                 if _is_mutable_literal(getattr(st, "value", None)):
                     found.setdefault((mi.relpath, name), set())
                     mutable_globals.setdefault(mi.relpath, set()).add(name)
+                    mutable_container_keys.add((mi.relpath, name))
     for f in m.all_functions():
         mi = f.module
         local_names = {a.arg for a in f.node.args.posonlyargs + f.node.args.args + f.node.args.kwonlyargs}
@@ -88,6 +93,51 @@ def discover_state(ctx: Ctx) -> dict:
                                 owner = (m2.relpath, tail)
                     if owner is not None:
                         found.setdefault(owner, set()).add(f.qualname)
+    # memoising decorators: the cache is process-wide state keyed by the arguments' hash/equality (a Module hashes by name:
+    # a later design that reuses a module name gets the earlier design's value)
+    for f in m.all_functions():
+        for d in getattr(f.node, "decorator_list", []):
+            core_ = d.func if isinstance(d, ast.Call) else d
+            nm = core_.attr if isinstance(core_, ast.Attribute) else (core_.id if isinstance(core_, ast.Name) else "")
+            if nm in MEMO_DECORATORS:
+                found.setdefault((f.module.relpath, f"{f.qualname}@{nm}"), set()).add(f.qualname)
+    # module-level objects (instances built at import time): every function that calls a method on one or stores into it
+    # may change it for all later callers (a YAML loader remembers the %YAML directive of the previous document)
+    objs: set = set()
+    for mi in m.modules.values():
+        for name, sts in mi.global_assigns.items():
+            for st in sts:
+                v = getattr(st, "value", None)
+                if isinstance(v, ast.Call):
+                    fn_ = v.func
+                    cname = fn_.attr if isinstance(fn_, ast.Attribute) else (fn_.id if isinstance(fn_, ast.Name) else "")
+                    if cname[:1].isupper() and cname not in IMMUTABLE_CTORS:
+                        found.setdefault((mi.relpath, name), set())
+                        objs.add((mi.relpath, name))
+    for f in m.all_functions():
+        mi = f.module
+        locals_ = {a.arg for a in f.node.args.posonlyargs + f.node.args.args + f.node.args.kwonlyargs}
+        for n in walk_own(f.node):
+            if isinstance(n, ast.Name) and isinstance(n.ctx, ast.Store):
+                locals_.add(n.id)
+        for n in walk_own(f.node):
+            tgt = None
+            if isinstance(n, ast.Call) and isinstance(n.func, ast.Attribute) and isinstance(n.func.value, ast.Name):
+                tgt = n.func.value.id
+            if isinstance(n, ast.Attribute) and isinstance(n.ctx, (ast.Store, ast.Del)) and isinstance(n.value, ast.Name):
+                tgt = n.value.id
+            if tgt is None or tgt in locals_:
+                continue
+            owner = None
+            if tgt in mi.global_assigns:
+                owner = (mi.relpath, tgt)
+            elif tgt in mi.imports and "." in mi.imports[tgt]:
+                head, tail = mi.imports[tgt].rsplit(".", 1)
+                m2 = m.by_dotted.get(head)
+                if m2 is not None and tail in m2.global_assigns:
+                    owner = (m2.relpath, tail)
+            if owner in objs and owner not in mutable_container_keys:
+                found[owner].add(f.qualname)
     # class-level mutable attributes (shared by all instances unless re-bound in __init__)
     for mi in m.modules.values():
         for ci in mi.classes.values():
